@@ -90,6 +90,8 @@ pub struct ModelCase {
     /// implementation's canonical answers, one per line
     pub impl_out: Vec<String>,
     pub sig_hint: String,
+    /// lines that are not sent to the model but belong to the replay of a disagreement
+    pub context: Vec<String>,
 }
 
 pub struct Report {
@@ -197,7 +199,12 @@ impl Report {
             lines,
             impl_out,
             sig_hint: sig_hint.into(),
+            context: vec![],
         });
+    }
+    pub fn model_case_ctx(&mut self, context: Vec<String>, lines: Vec<String>, impl_out: Vec<String>, sig_hint: &str) {
+        self.model_case(lines, impl_out, sig_hint);
+        self.model_cases.last_mut().unwrap().context = context;
     }
 
     /// pipe every pending model case through the Lean driver and diff
@@ -242,7 +249,8 @@ impl Report {
             }
             for (i, (m, im)) in model_out.iter().zip(mc.impl_out.iter()).enumerate() {
                 if m != im {
-                    let case: Vec<String> = mc.lines[..=i].to_vec();
+                    let mut case: Vec<String> = mc.context.clone();
+                    case.extend(mc.lines[..=i].iter().cloned());
                     self.fail("model", &mc.sig_hint, case, m, im);
                     break;
                 }
